@@ -225,6 +225,7 @@ func c16Relay(c *Ctx) {
 	fwd := forward.New(false)
 	fwd.Transport = &http.Transport{ResponseHeaderTimeout: 150 * time.Millisecond, DisableKeepAlives: true, MaxIdleConns: -1}
 	// observe which error the reverse proxy hands to oxy's standard error handler (the handler itself is unchanged)
+	origErrHandler := fwd.ErrorHandler // whatever forward.New installed stays in charge
 	fwd.ErrorHandler = func(w http.ResponseWriter, req *http.Request, err error) {
 		id := req.URL.Query().Get("id")
 		mu.Lock()
@@ -232,6 +233,10 @@ func c16Relay(c *Ctx) {
 			res.errs = append(res.errs, err.Error())
 		}
 		mu.Unlock()
+		if origErrHandler != nil {
+			origErrHandler(w, req, err)
+			return
+		}
 		utils.DefaultHandler.ServeHTTP(w, req, err)
 	}
 	sl := forward.NewStateListener(fwd, func(u *url.URL, state int) {
